@@ -253,6 +253,10 @@ def run(c):
     rounds = 150 if c.quick() else 1500
     so = c.run_harness(exe, [{"id": 0, "ops": [{"op": "reset"}, {"op": "openstress", "rounds": rounds, "n": 250}, {"op": "reset"}, {"op": "ping"}]}],
                        env=env, timeout=1800)[0]["obs"]
+    if so[1].get("hang"):
+        c.finding_or_violation({"kind": "open-batch-history", "what": "a batch never returned"}, {"history": "%d rounds of 250-item create + read-back batches on one environment" % rounds})
+        so[1].update({"rounds_done": 0, "fail": "hang"})
+        so += [{"err": "hang"}] * 3
     c.cov["stress_rounds"] = so[1]["rounds_done"]
     c.evaluations += so[1]["rounds_done"]
     if so[1]["fail"] or so[3]["err"]:
